@@ -421,7 +421,7 @@ def gen_kwargs(rng):
         games=gen.ALL_GAMES + gen.HILO_GAMES, customs=(), p_custom=0,
         chip_types=('int',), max_boards=2, rake_ok=True, strict_p=1.0,
         auto_styles=('typical', 'all', 'any'),
-        hostile_chips=rng.random() < 0.5,
+        hostile_chips=rng.random() < 0.5, odd_bets_p=0.25,
     )
 
 
